@@ -89,6 +89,7 @@ class Harness(cm.BaseB):
             out.append({"k": "nosplit", "dev": dev})
             out.append({"k": "invalid", "dev": dev})
             out.append({"k": "lifetime", "dev": dev})
+            out.append({"k": "flip", "dev": dev})
         return out
 
     def cases(self, chunk):
@@ -125,6 +126,12 @@ class Harness(cm.BaseB):
                 for li in subfamily()[:24]:
                     for pb in ("auto", "source"):
                         yield {"k": "reuse", "dev": chunk["dev"], "first": first, "tr": li, "pb": pb}
+        elif chunk["k"] == "flip":
+            # wl.diti_mode re-assigned on the live worklist between two transfers with the same wash scheme
+            for wash in (1, 2, 3, 4, "flush", "reuse"):
+                for first in (False, True):
+                    for li in subfamily()[:6]:
+                        yield {"k": "flip", "dev": chunk["dev"], "wash": wash, "first": first, "tr": li}
         elif chunk["k"] == "lifetime":
             for wells in (["A02", "B02", "B03"], ["B01", "A03"], ["B02"]):
                 yield {"k": "lifetime", "dev": chunk["dev"], "wells": wells}
@@ -139,6 +146,10 @@ class Harness(cm.BaseB):
                 if all(x in (1, big) for x in ls):
                     continue
                 yield {"k": "bad", "dev": chunk["dev"], "lens": list(ls), "neg": None}
+            # an empty argument next to non-empty ones: what the others name would be dropped silently
+            for ls in itertools.product((0, 1, 2), repeat=3):
+                if 0 in ls and any(ls):
+                    yield {"k": "bad", "dev": chunk["dev"], "lens": list(ls), "neg": None}
             for n in (1, 2, 3):
                 for i in range(n):
                     for val in (-5, -0.01, -120):
@@ -171,6 +182,19 @@ class Harness(cm.BaseB):
             return self.one_bad(case)
         if case["k"] == "lifetime":
             return self.one_lifetime(case)
+        if case["k"] == "flip":
+            tr = [TRIPLES[i] for i in case["tr"]]
+            sw, dw, vols = [t[0] for t in tr], [t[1] for t in tr], [t[2] for t in tr]
+            first = case["first"]
+            wl = getattr(rt, case["dev"])(max_volume=MAXV, diti_mode=first)
+            base = {"k": "t", "dev": case["dev"], "src": "plate", "dst": "plate", "pb": "auto"}
+            opts1 = [("wash", case["wash"])] + ([("diti", True)] if first else [])
+            o1, k1, V1 = self.run(base, sw, dw, vols, sw, dw, vols, "plate", opts1, wl=wl)
+            del wl[:]
+            wl.diti_mode = not first
+            opts2 = [("wash", case["wash"])] + ([("diti", True)] if not first else [])
+            o2, k2, V2 = self.run(base, sw, dw, vols, sw, dw, vols, "plate", opts2, wl=wl)
+            return "flip:" + o2, repr(case), V1 + [(c, f"after wl.diti_mode = {not first} on the live worklist: {d}") for c, d in V2]
         if case["k"] == "reuse":
             # the same worklist object first sees labware "S"/"D" of one geometry, then of another
             second = "trough" if case["first"] == "plate" else "plate"
